@@ -22,7 +22,7 @@ def main():
         "setup_cmd": "cd /verif && ./setup.sh",
         "hooks": {"guard": "GFAPY_VERIF", "enable": "checks import gfapy from /repo (or $VERIF_REPO) with GFAPY_VERIF=1 in the environment; no build step (pure Python)",
                   "baseline_off_cmd": "cd /repo && env -u GFAPY_VERIF /venv/bin/python -m pytest -ra -q -p no:cacheprovider --timeout=900 --continue-on-collection-errors",
-                  "source_commits": [], "add_only": True},
+                  "source_commits": ["a745ba584e1bcc796ed0b9ebcdcb9e0f684f49b6"], "add_only": True},
         "engines": [{"name": "tlc-core", "path": "spec/Gfa.tla spec/MC_Gfa.tla spec/TraceGfa.tla harness/core.py",
                      "serves_properties": sorted(p for p in checks.CHECKS if p in RELEASED),
                      "kind_free_text": "TLA+ specification + TLC model checking + bidirectional conformance (TLC histories replayed into gfapy; recorded traces validated by TLC)"}],
